@@ -436,7 +436,7 @@ func TestVerifC34RepairSalvages(t *testing.T) {
 	st := verifkit.Begin(t, "C34")
 	sitesPerRepo := verifkit.Scale(6, 16)
 	rapid.Check(t, func(t *rapid.T) {
-		r := vGenRepoC03(t, vRepoGenC03{AllowDup: true, MaxEntries: 11})
+		r := vGenRepoC03(t, vRepoGenC03{AllowDup: true, MaxEntries: 11, AllowMultiBlob: true})
 		defer r.Close()
 		if err := r.healthy(r.e); err != nil {
 			t.Fatalf("harness: the undamaged repository is not healthy: %v (%s)", err, vJSON(r.Desc))
